@@ -113,6 +113,61 @@ func c12PrioOps(ids []uint32, bigData int32) []c12Op {
 	return ops
 }
 
+// c12Default9218 is the priority every harness OpenStream carries (RFC 9218
+// default: urgency 3, non-incremental).
+var c12Default9218 = c12Prio{W: 15, U: 3}
+
+// c12Prios9218 has one value on each side of "same bucket as the OpenStream
+// default?": the default bucket itself, same urgency but incremental, more
+// urgent, less urgent.
+var c12Prios9218 = []c12Prio{{W: 15, U: 3}, {W: 15, U: 3, I: true}, {W: 15, U: 0, I: true}, {W: 15, U: 7}}
+
+// c12BufferedOps is the alphabet of the buffered-PRIORITY_UPDATE part of the
+// RFC 9218 scheduler: AdjustStream with every priority of c12Prios9218 on
+// every id, open or not yet open (an AdjustStream on a not yet open id is
+// buffered and applied by the next OpenStream of that id; one on the
+// never-opened id 7 replaces whatever is buffered), OpenStream (always with
+// the default priority, so a buffered update may or may not name another
+// bucket), HEADERS, a DATA frame of several pieces, CloseStream, Pop.
+func c12BufferedOps(ids []uint32) []c12Op {
+	var ops []c12Op
+	for _, s := range ids {
+		ops = append(ops, c12Op{K: c12Open, S: s, P: c12Default9218})
+	}
+	ops = append(ops, c12Op{K: c12Pop})
+	for _, s := range ids {
+		ops = append(ops, c12Op{K: c12Headers, S: s}, c12Op{K: c12Data, S: s, N: 10, End: true})
+	}
+	for _, s := range ids {
+		ops = append(ops, c12Op{K: c12Close, S: s})
+	}
+	for _, s := range ids {
+		for _, p := range c12Prios9218 {
+			ops = append(ops, c12Op{K: c12Adjust, S: s, P: p})
+		}
+	}
+	ops = append(ops, c12Op{K: c12Adjust, S: 7, P: c12Prios9218[2]})
+	return ops
+}
+
+// c12BufferedSeeds returns the empty history plus, for every id b of ids and
+// every non-default priority p, the shortest history in which b was opened
+// through the buffered-update path: Open(ids below b) Adjust(b,p) Open(b).
+func c12BufferedSeeds(ids []uint32) [][]c12Op {
+	seeds := [][]c12Op{nil}
+	for bi, b := range ids {
+		for _, p := range c12Prios9218[1:] {
+			var seed []c12Op
+			for _, s := range ids[:bi] {
+				seed = append(seed, c12Op{K: c12Open, S: s, P: c12Default9218})
+			}
+			seed = append(seed, c12Op{K: c12Adjust, S: b, P: p}, c12Op{K: c12Open, S: b, P: c12Default9218})
+			seeds = append(seeds, seed)
+		}
+	}
+	return seeds
+}
+
 func c12Parts(c *vx.Ctx) []c12Part {
 	envs := c12Envs()
 	two, three := []uint32{1, 3}, []uint32{1, 3, 5}
@@ -132,7 +187,26 @@ func c12Parts(c *vx.Ctx) []c12Part {
 		// three streams + id 7
 		{name: "prio/three-streams", scheds: []string{"rfc7540", "rfc7540-retain0", "rfc7540-retain1", "rfc9218", "roundrobin", "random"}, env: envs["open"], canOpen: three,
 			seeds: [][]c12Op{nil}, ops: c12PrioOps(three, 10), depth: vx.Pick(c, 3, 4)},
+		// RFC 9218: streams opened through a buffered PRIORITY_UPDATE (AdjustStream before OpenStream)
+		// sharing the scheduler with other streams, then pushed to / closed / adjusted again / popped
+		{name: "prio9218/buffered-update", scheds: []string{"rfc9218"}, env: envs["open"], canOpen: three,
+			seeds: c12BufferedSeeds(three), ops: c12BufferedOps(three), depth: vx.Pick(c, 4, 5)},
 	}
+}
+
+// c12Probe pushes one HEADERS frame on every stream that is open under the
+// contract; the drain that follows must deliver each exactly once (no open
+// stream may have become unreachable for Pop, whatever the history did).
+func c12Probe(w *vx.W, world *c12World) bool {
+	for id := range world.streams {
+		if world.streams[id].state != 1 {
+			continue
+		}
+		if _, cont := world.apply(w, c12Op{K: c12Headers, S: uint32(id)}); !cont {
+			return false
+		}
+	}
+	return true
 }
 
 func c12RunCase(w *vx.W, envs map[string]c12Env, x c12Case) {
@@ -144,6 +218,9 @@ func c12RunCase(w *vx.W, envs map[string]c12Env, x c12Case) {
 		}
 	}
 	world.drain(w)
+	if !world.failed && c12Probe(w, world) {
+		world.drain(w)
+	}
 	// model-checking counters: every history is distinct by construction
 	// (one explored history = one state of the stateless search), every
 	// operation application was compared with the model.
